@@ -1,8 +1,10 @@
+from .. import smt_units
+
 PROP = {
     "kani_groups": ["hk_file"],
-    "smt": [],
+    "smt": [smt_units.unit_file_onbatch],
     "technique": "bounded model checking (Kani/CBMC) of the file-writing kernels of emit_file over a fault-injecting harness filesystem",
-    "functions": [],
+    "functions": ['E2-cfg (mir2smt/cfgabs.py: control-flow abstraction of the MIR with uninterpreted calls, cvc5 + z3): Worker::on_batch::{closure#0} structural obligations o1 (active file only re-installed after flush+sync Ok, taken before any write), o2 (write error returns retry with the batch; advance exactly once per successful write), o3 (flush/sync error never acknowledged), write loop unrolled 2 iterations'],
     "bounds": "",
     "outside": "",
     "stubs": [],
